@@ -18,6 +18,11 @@ Leg S2C : TLC -simulate behaviours (configuration + call order) are executed on 
           offset tables are prepared with the line count of the loaded document set. Every second big-file case starts from a
           HISTORY: tables built for an earlier revision of the files (same line count, other line lengths), files replaced by
           the current revision with a later mtime, then prepared again and read (ExactCover / SeekCorrect on the current files).
+          Adapter cases: a parallel element with TWO bulk tasks (mostly referencing the SAME operation) is loaded by the real
+          loader, allocated by the real Allocator / calculate_worker_assignments / ClientAllocations and every (worker, column)
+          is run by the real AsyncIoAdapter.run -> schedule_for -> AsyncExecutor -> registered bulk runner (only the ES client
+          factory is replaced); one trace per TASK (ExactCover per task). Every third case names its corpora in the operation's
+          "corpora" parameter in another order than the track's and with one name twice.
 Leg pct : function-like: for every group size of 1..200 (thorough 300) bulks x every ingest percentage 1..100 and ten dyadic
           fractional ones, a real parameter source shared by 1..3 co-located clients is drained and the number of bulks handed
           out is validated by TLC against ceil(b * p / 100) in integer arithmetic (clause PctStop).
@@ -239,6 +244,11 @@ def track_spec(fs, cfg, pct_full=False, extra=None):
             p["conflict-probability"] = extra["prob"]
         if extra and extra.get("recency"):
             p["recency"] = extra["recency"]
+    names = [c["name"] for c in corpora]
+    if seed % 3 == 1:
+        # the operation names its corpora itself: in another order than the track's and with one name twice (legal; e.g. a list
+        # assembled from track parameters) -- or, for a single corpus, as a plain string every other time
+        p["corpora"] = names[0] if len(names) == 1 and seed % 2 == 0 else list(reversed(names)) + [names[(seed // 3) % len(names)]]
     return {
         "description": "c03",
         "indices": [{"name": "idx%d" % f, "auto-managed": False} for f in range(1, len(fs.files) + 1)],
@@ -437,6 +447,226 @@ def execute(case, root):
     item["events"] = events
     item["fs"] = fs
     return item
+
+
+# ---------------------------------------------------------------------------------------------------
+# the parameter-source set-up of the real AsyncIoAdapter.run: a parallel element with TWO bulk tasks, loaded by the real loader,
+# allocated by the real Allocator / calculate_worker_assignments / ClientAllocations and run by the real AsyncIoAdapter.run ->
+# schedule_for -> AsyncExecutor -> registered bulk runner; only the ES client factory is replaced. One trace item per TASK.
+# ---------------------------------------------------------------------------------------------------
+class _ParamsSpy:
+    """Stands between ScheduleHandle and the partitioned parameter source: records StopIteration and the reported bulk-size."""
+
+    def __init__(self, inner, log, client_id):
+        self._inner, self._log, self._client_id = inner, log, client_id
+        self.last_size = None
+
+    def params(self):
+        try:
+            p = self._inner.params()
+        except StopIteration:
+            self._log.append(("stop", self._client_id, None, None))
+            raise
+        self.last_size = p.get("bulk-size")
+        return p
+
+    def __getattr__(self, name):
+        return getattr(self._inner, name)
+
+
+def execute_adapter(case, root):
+    """case: {files, tasks: [n1, n2], same_op, cap, hosts, bulk, seed}. Returns one "run" item per bulk task."""
+    import asyncio
+    import io as pyio
+    import threading
+
+    from esrally import client as es_client_mod
+    from esrally.driver import driver, runner
+    from esrally.track import loader
+
+    from .. import clientloop
+
+    _quiet()
+    clientloop.ensure_rally_home()
+    if not _RUNNERS[0]:
+        runner.register_default_runners()
+        _RUNNERS[0] = True
+    fs = FileSet(root, case["files"])
+    base_cfg = {"N": 1, "groups": [[0]], "bulk": case["bulk"], "mult": 1, "num": 1, "den": 1, "conflict": "none", "onc": "index"}
+    spec = track_spec(fs, base_cfg, extra=case)
+    op = spec["schedule"][0]["operation"]
+    ops = [dict(op, name="bulk-op")] + ([] if case["same_op"] else [dict(op, name="bulk-op-2")])
+    spec["operations"] = ops
+    par = {"tasks": [{"name": "index-%d" % (j + 1), "operation": ops[0 if case["same_op"] else j]["name"], "clients": n} for j, n in enumerate(case["tasks"])]}
+    if case["cap"]:
+        par["clients"] = case["cap"]
+    spec["schedule"] = [{"parallel": par}]
+    items = [{"id": "%s-t%d" % (case["id"], j + 1), "kind": "run", "files": case["files"], "cfg": dict(base_cfg, N=n, groups=[]), "off": real_offsets(fs, n), "crash": None, "events": [], "full": []} for j, n in enumerate(case["tasks"])]
+    try:
+        trk = loader.TrackSpecificationReader()("c03", spec, fs.root)
+        f = 0
+        prep = loader.DocumentSetPreparator("c03", None, None)
+        for corpus in trk.corpora:
+            for d in corpus.documents:
+                f += 1
+                d.document_file = os.path.join(fs.root, d.document_file)
+                prep.create_file_offset_table(d.document_file, d.number_of_lines)
+        element = trk.challenges[0].schedule[0]
+        tasks = list(element.tasks)
+        allocator = driver.Allocator([element])
+        matrix = allocator.allocations
+        assignments = driver.calculate_worker_assignments(case["hosts"], allocator.clients)
+    except tlc.MachineryError:
+        raise
+    except Exception as ex:  # pylint: disable=broad-except
+        for it in items:
+            it["crash"] = "loading / allocating: %s: %s" % (type(ex).__name__, ex)
+        return items, fs
+    log = []
+
+    class _Ctx:
+        request_start = 0.0
+        request_end = 0.0
+
+        def __enter__(self):
+            return self
+
+        def __exit__(self, *a):
+            return False
+
+    class _Es:
+        def __init__(self, client_id):
+            self.client_id = client_id
+
+        def new_request_context(self):
+            return _Ctx()
+
+        def return_raw_response(self):
+            pass
+
+        async def bulk(self, **kw):
+            spy = spies.get(self.client_id)
+            log.append(("bulk", self.client_id, kw.get("body", kw.get("operations")), spy.last_size if spy else None))
+            await asyncio.sleep(0)  # let the other clients of this worker run, as a real request would
+            return pyio.BytesIO(b'{"took":1,"errors":false}')
+
+        async def close(self):
+            pass
+
+    class _Factory:
+        def __init__(self, *a, **k):
+            pass
+
+        def create_async(self, api_key=None, client_id=None):
+            return _Es(client_id)
+
+    spies = {}
+    real_schedule_for = driver.schedule_for
+    real_factory = es_client_mod.EsClientFactory
+    where = {}  # client id -> (task index j, group number g, client index in task) during one run()
+    es_client_mod.EsClientFactory = _Factory
+    try:
+        for h in assignments:
+            for worker_clients in h["workers"]:
+                if not worker_clients:
+                    continue
+                ca = driver.ClientAllocations()
+                for cid in worker_clients:
+                    ca.add(cid, matrix[cid])
+                for col in range(len(matrix[0])):
+                    if ca.is_joinpoint(col):
+                        continue
+                    tas = ca.tasks(col)
+                    if not tas:
+                        continue
+                    where.clear()
+                    spies.clear()
+                    by_ta = {}
+                    for a in tas:
+                        j = [id(t) for t in tasks].index(id(a.task.task))
+                        by_ta[id(a.task)] = a.client_id
+                        where[a.client_id] = (j, a.task.client_index_in_task)
+                    gno = {}
+                    for j in sorted({jc[0] for jc in where.values()}):
+                        items[j]["cfg"]["groups"].append([where[a.client_id][1] for a in tas if where[a.client_id][0] == j])
+                        gno[j] = len(items[j]["cfg"]["groups"])
+                        items[j]["full"].append([])
+
+                    def spying_schedule_for(task_allocation, parameter_source, _by=by_ta):
+                        handle = real_schedule_for(task_allocation, parameter_source)
+                        cid = _by[id(task_allocation)]
+                        spies[cid] = handle.params = _ParamsSpy(handle.params, log, cid)
+                        return handle
+
+                    del log[:]
+                    driver.schedule_for = spying_schedule_for
+                    ctxs = {a.client_id: driver.ClientContext(client_id=a.client_id, parent_worker_id=0) for a in tas}
+                    adapter = driver.AsyncIoAdapter(clientloop._adapter_config(), trk, tas, driver.Sampler(start_timestamp=0), threading.Event(), threading.Event(), "abort", ctxs, 0)  # pylint: disable=protected-access
+                    loop = asyncio.new_event_loop()
+                    try:
+                        loop.run_until_complete(adapter.run())
+                    except Exception as ex:  # pylint: disable=broad-except
+                        for j in gno:
+                            items[j]["crash"] = "AsyncIoAdapter.run: %s: %s" % (type(ex).__name__, ex)
+                    finally:
+                        loop.close()
+                        driver.schedule_for = real_schedule_for
+                    for kind, cid, body, size in log:
+                        j, c = where[cid]
+                        if kind == "stop":
+                            items[j]["events"].append({"g": gno[j], "c": c, "stop": True, "b": NO_BULK})
+                        else:
+                            if not isinstance(body, (bytes, bytearray)):
+                                raise tlc.MachineryError("the bulk runner did not hand a bytes body to es.bulk()")
+                            b = lex_body(bytes(body), size, fs, False)
+                            items[j]["events"].append({"g": gno[j], "c": c, "stop": False, "b": b})
+                            items[j]["full"][gno[j] - 1].append(b["runs"])
+    finally:
+        es_client_mod.EsClientFactory = real_factory
+        driver.schedule_for = real_schedule_for
+    return items, fs
+
+
+def adapter_cases(seed, n):
+    rnd = random.Random(seed)
+    cases = []
+    for k in range(n):
+        n1, n2 = rnd.choice([(2, 2), (1, 1), (2, 2), (3, 3), (1, 2), (2, 3), (3, 1)])
+        same = k % 4 != 3  # mostly: both tasks reference the SAME operation (as index-1 / index-2 in real tracks)
+        files = [{"corpus": 1, "docs": rnd.choice([5, 8, 11, 17]), "meta": rnd.random() < 0.3}]
+        if rnd.random() < 0.5:
+            files.append({"corpus": rnd.choice([1, 2]), "docs": rnd.choice([3, 6, 9]), "meta": rnd.random() < 0.3})
+        cases.append(
+            {
+                "src": "real-adapter",
+                "files": files,
+                "tasks": [n1, n2],
+                "same_op": same,
+                "cap": rnd.choice([0, 0, 0, max(n1, n2)]),
+                "hosts": [{"host": "h%d" % i, "cores": rnd.choice([1, 1, 2])} for i in range(rnd.choice([1, 1, 2]))],
+                "bulk": rnd.randint(1, 3),
+                "seed": seed * 1000 + k,
+            }
+        )
+    return cases
+
+
+def run_adapter_cases(cases, out, label, root, pending):
+    n_items = 0
+    for ci, case in enumerate(cases):
+        case = dict(case, id="%s-%d" % (label, ci), kind="adapter")
+        items, _fs = execute_adapter(case, os.path.join(root, "case"))
+        for it in items:
+            if it["crash"]:
+                out.violations.append(Violation("ExactCover", _public(case), signature=dict(_signature("adapter", ["ExactCover"], case), crash=True), detail="task %s: the real code raised %s" % (it["id"], it["crash"])))
+            if not it["cfg"]["groups"] or it["crash"] and not it["events"]:
+                continue  # nothing ran: the crash above is the verdict (an empty split is not a trace)
+            pending[0].append(it)
+            pending[1][it["id"]] = case
+            n_items += 1
+        out.add_case(_public(case), nontrivial=True)
+    shutil.rmtree(os.path.join(root, "case"), ignore_errors=True)
+    return n_items
 
 
 # ---------------------------------------------------------------------------------------------------
@@ -1013,6 +1243,9 @@ def run(ctx, out):
     }
     out.note("real Allocator + calculate_worker_assignments: %d schedules, %d distinct splits of the bulk task's clients, %d non-contiguous" % (n_sched, len(splits), out.extra["real_allocator_groups"]["noncontiguous_splits_enumerated"]))
     out.sample({"source": "real-allocator", "sched": al[0]["sched"], "groups": items[0]["cfg"]["groups"]})
+    ad = adapter_cases(ctx.seed + 6, 14 if quick else 150)
+    n_ad = run_adapter_cases(ad, out, "adapter", root, pending)
+    out.note("leg adapter: %d parallel elements with two bulk tasks run by the real AsyncIoAdapter.run: %d per-task traces" % (len(ad), n_ad))
     big = [big_case(s, k, ctx.seed) for k, s in enumerate(BIG_CASES + ([] if quick else BIG_CASES_THOROUGH))]
     items = run_cases(big, out, "big", root, pending)
     out.sample({"source": "big-files", "files": big[0]["files"], "offsets": items[0]["off"], "table": [s for s in items if s["kind"] == "seek"][0]["table"]})
@@ -1031,6 +1264,11 @@ def replay(ctx, case):
     root = tlc.scratch("c03replay")
     if kind == "run":
         run_cases([case], out, "replay", root)
+    elif kind == "adapter":
+        pending = ([], {})
+        run_adapter_cases([case], out, "replay", root, pending)
+        if pending[0]:
+            judge(pending[0], pending[1], out, "c03replay")
     elif kind == "pct":
         it = pct_item(os.path.join(root, "pct"), case["docs"], [tuple(x) for x in case["pcts"]])
         judge([it], {it["id"]: dict(case)}, out, "c03replay")
